@@ -473,6 +473,13 @@ class SymExec:
         self.record_assigns = record_assigns
         self.rename = rename or {}    # actual parameter name -> the canonical name rules use (private functions)
         self.unroll = unroll          # >0: loops are executed as written (no cut, no havoc), at most this many visits per header
+        # a constant generic of the analysis (`IN_CHECK`) that the code keeps as a runtime `bool` parameter instead: the
+        # one bool parameter of the entry function is bound to the value asked for
+        if self.cgen and "IN_CHECK" in self.cgen and "IN_CHECK" not in (body.j.get("generics") or []):
+            bools = [body.local_name(i) for i in range(1, body.argc + 1) if body.locals[i]["ty"] == "bool"]
+            if len(bools) == 1:
+                self.params = dict(self.params or {})
+                self.params[self.rename.get(bools[0], bools[0])] = self.cgen["IN_CHECK"]
         self.types = {}
         self.dn = {}
         self._modset = {}
